@@ -13,7 +13,7 @@ MEMBER_MAP_NAMES = ["owned_into", "ref_into", "into", "from_owned", "from_ref", 
                     "owned_try_into", "ref_try_into", "try_into", "try_from_owned", "try_from_ref", "try_from",
                     "try_map_owned", "try_map_ref", "try_map"]
 LEAF_TYPES = ["i32", "u8", "i64", "bool", "String", "u16", "char"]
-COUNTERPARTS = ["A", "B", "m::C", "::k::D", "G<i32>", "H::<u8>", "Q<'x, u8>"]
+COUNTERPARTS = ["A", "B", "m::C", "::k::D", "G<i32>", "H::<u8>", "Q<'x, u8>", "crate::dto::E", "self::F", "super::K", "R<i32, u8,>"]
 
 
 class G:
@@ -229,7 +229,24 @@ def struct_children(g, n_cp=None):
     def cp_entries():
         # generic arguments in turbofish form: the path is also used in expression position (README 'Generics' does the same for the counterpart)
         return [dict(path=p, ty=f"T{g.mark()}" + r.choice(["", "", "", "::<i32>", "::<u8>", "::<'x, u8>"]) if g.chance(0.85) else f"m::T{g.mark()}", hint=("{}" if p in named_children else None)) for p in paths]
-    if dedicated:
+    if dedicated and g.chance(0.4):
+        # the first counterpart has its own list; the default one - written first - only covers what the others use
+        used_by_others = set()
+        for f in it.fields:
+            for a in f.attrs:
+                if a.kind == "child" and a.f.get("container") != cps[0] and (a.f.get("container") is not None or not any(b.kind == "child" and b.f.get("container") == cps[0] for b in f.attrs)):
+                    parts = a.f["path"].split(".")
+                    used_by_others |= {".".join(parts[:i + 1]) for i in range(len(parts))}
+        gp = {e_.get("path") for a in it.attrs if a.kind == "ghosts" for e_ in a.f["entries"]}
+        full = cp_entries()
+        dflt = [e for e in cp_entries() if e["path"] in used_by_others or any(str(x_).startswith(e["path"]) for x_ in gp if x_)]
+        if dflt and len(cps) >= 2:
+            it.attrs.append(Instr("child_parents", "child_parents", container=None, entries=dflt))
+            it.attrs.append(Instr("child_parents", "child_parents", container=cps[0], entries=full))
+        else:
+            for c in cps[:2]:
+                it.attrs.append(Instr("child_parents", "child_parents", container=c, entries=cp_entries()))
+    elif dedicated:
         for c in cps[:2]:
             it.attrs.append(Instr("child_parents", "child_parents", container=c, entries=cp_entries()))
     else:
@@ -289,7 +306,13 @@ def struct_parents(g):
                     if len(xs) == 1 and not xs[0].startswith("["):
                         xs.append(f"x{g.mark()}")  # a single bare ident would be read as a dedicated type
                     return ", ".join(xs)
-                f.attrs.append(Instr("parent", "parent", container=(r.choice(cps) if g.chance(0.2) else None), fields=plist(0)))
+                c = r.choice(cps) if g.chance(0.25) else None
+                args = plist(0)
+                from_cps = {t.f["ty"] for t in it.attrs if t.kind == "trait" and any(k.startswith("from") for k in kinds_of(t.name))}
+                if c is not None and c not in from_cps and g.chance(0.6):
+                    # only From impls construct the nested values: a nest dedicated to a counterpart that is only converted Into needs no types
+                    args = re.sub(r"(\] q\d+): Q\d+", r"\1", args)
+                f.attrs.append(Instr("parent", "parent", container=c, fields=args))
         it.fields.append(f)
     return it
 
@@ -318,7 +341,20 @@ def enum_basic(g, n_cp=None):
             v.attrs.append(Instr(r.choice(["map", "from", "into", "map_owned", "from_ref"]), "map", container=(r.choice(cps) if g.chance(0.25) else None),
                                  member=f"M{g.mark()}", action=None))
         elif roll < 0.3:
-            v.attrs.append(Instr("type_hint", "type_hint", container=None, hint=r.choice(["()", "{}", "Unit"]) if shape != "tuple" else r.choice(["Unit", "()"])))
+            hint = r.choice(["()", "{}", "Unit"]) if shape != "tuple" else r.choice(["Unit", "()", "{}"])
+            v.attrs.append(Instr("type_hint", "type_hint", container=None, hint=hint))
+            if shape == "tuple" and hint == "{}":
+                # a tuple variant mapped to a field-named one: every payload field names its counterpart field; where only From impls are requested
+                # an expression alone satisfies the documented rule ("field name or an action")
+                from_only = all(k.startswith("from") for t in it.attrs if t.kind == "trait" for k in kinds_of(t.name))
+                for f in v.fields:
+                    f.attrs = [a for a in f.attrs if a.kind == "ghost" and a.name == "ghost"]
+                    if f.attrs:
+                        continue
+                    if from_only and g.chance(0.3):
+                        f.attrs.append(Instr("from", "map", container=None, member=None, action=f"k{g.mark()}()", braced=True))
+                    else:
+                        f.attrs.append(Instr("map", "map", container=None, member=f"m{g.mark()}", action=(g.expr(at=False) if g.chance(0.3) else None), braced=True))
         elif roll < 0.4:
             v.attrs.append(Instr(r.choice(["ghost", "ghost_owned"]), "ghost", container=None, action=f"k{g.mark()}()", braced=True))
         elif roll < 0.5 and shape != "unit":
@@ -344,9 +380,18 @@ def enum_prim(g):
         it.attrs.append(Instr(nm, "trait", ty=c, hint=None, err="Er" if fal else None,
                               params=[("default", f"=> k{g.mark()}()")] if g.chance(0.7) else []))
     only_into = all(t.name == "owned_into" for t in it.attrs)
+    # an ordinary enum counterpart next to the primitive ones: its variants correspond by name; the literals / patterns are then all dedicated
+    plain = None
+    if g.chance(0.3):
+        plain = r.choice(["B", "m::C"])
+        for nm in r.sample(["map_owned", "from_ref", "ref_into", "try_from_owned"], r.randint(1, 2)):
+            fal = nm.startswith("try")
+            it.attrs.append(Instr(nm, "trait", ty=plain, hint=None, err="Ep" if fal else None, params=[("default", f"=> k{g.mark()}()")] if g.chance(0.5) else []))
+        it.meta["cps"] = cps + [plain]
+        r.shuffle(it.attrs)
     for i in range(r.randint(1, 5)):
         v = Variant(f"V{i}", "unit")
-        ded = len(cps) > 1 and g.chance(0.4)
+        ded = (len(cps) > 1 and g.chance(0.4)) or plain is not None
         if only_into or g.chance(0.7):
             if ded:
                 for c in cps:
@@ -355,10 +400,12 @@ def enum_prim(g):
                 v.attrs.append(Instr("literal", "literal", container=None, tokens=str(g.mark())))
         else:
             a = g.mark()
-            v.attrs.append(Instr("pattern", "pattern", container=None, tokens=r.choice([f"{a}..={a + 5}", f"{a} | {a + 1}", "_"])))
-            if any(k.startswith(("owned_into", "ref_into")) for t in it.attrs for k in kinds_of(t.name)):
-                # README 'Using literals and patterns together': a pattern variant needs an into-only expression
-                v.attrs.append(Instr("into", "map", container=None, member=None, action=f"k{g.mark()}()", braced=True))
+            for c in (cps if plain is not None else [None]):
+                v.attrs.append(Instr("pattern", "pattern", container=c, tokens=r.choice([f"{a}..={a + 5}", f"{a} | {a + 1}", "_"])))
+            for c in (cps if plain is not None else [None]):
+                if any(k.startswith(("owned_into", "ref_into")) for t in it.attrs for k in kinds_of(t.name) if c is None or t.f["ty"] == c):
+                    # README 'Using literals and patterns together': a pattern variant needs an into-only expression
+                    v.attrs.append(Instr("into", "map", container=c, member=None, action=f"k{g.mark()}()", braced=True))
         it.variants.append(v)
     return it
 
